@@ -225,6 +225,8 @@ structure Custom where
   enc : Value → Option Item
   dec : Item → Option Value
   kinds : List Ty
+  /-- items that the codec re-encodes to themselves (used by `Model/SchemaCanon.lean`) -/
+  canon : Item → Bool := fun _ => false
 
 structure EnvEntry where
   name : String
